@@ -192,6 +192,10 @@ impl Prop for C11 {
         120
     }
 
+    fn logging_allowed() -> bool {
+        false
+    }
+
     fn generate(r: &mut Rng, tier: Tier, _idx: u64) -> Scn {
         let kind = *r.pick(&Kind::ALL);
         let cap = *r.pick(&[1usize, 4, 64, 1000]);
